@@ -149,6 +149,9 @@ func (g *Graph) InEdges(v Vertex) []Vertex {
 // this graph will impact the original Graph. You must call Copy on the
 // result if you want to have a copy.
 func (g *Graph) Reverse() *Graph {
+	// The maps must exist before they can be shared with the reversed view.
+	g.init()
+
 	return &Graph{
 		adjacencyOut: g.adjacencyIn,
 		adjacencyIn:  g.adjacencyOut,
